@@ -46,7 +46,7 @@ def valid_case(rng, several=False):
     return case
 
 
-FAULTS = ["power-wrong-count-later-assembly", "power-short-later-assembly", "duct-zero-wall", "pins-do-not-fit", "wire-too-thick", "clad-too-thick", "zero-pin-pitch", "negative-pin-diameter", "zero-duct-ftf",
+FAULTS = ["axial-regions-cover-core", "power-wrong-count-later-assembly", "power-short-later-assembly", "duct-zero-wall", "pins-do-not-fit", "wire-too-thick", "clad-too-thick", "zero-pin-pitch", "negative-pin-diameter", "zero-duct-ftf",
           "duct-ge-pitch", "unequal-outer-ducts", "axial-regions-overlap", "axial-region-inverted", "missing-bc", "negative-flowrate",
           "unknown-material", "unknown-correlation", "negative-power", "power-gap-between-cells", "power-wrong-pin-count",
           "flow-gap-no-bypass", "zero-core-length", "odd-duct-values", "zero-step-request"]
@@ -109,6 +109,14 @@ def inject(rng, case, fault, lowfid=False, near=False, excess=0.01):
         L = c['core']['length']
         t['AxialRegion'] = [dict(name='lower', z_lo=0.0, z_hi=0.6 * L, vf_coolant=0.3, model='simple'),
                             dict(name='upper', z_lo=0.5 * L, z_hi=L, vf_coolant=0.3, model='simple')]
+    elif fault == "axial-regions-cover-core":
+        # unrodded regions from inlet to outlet of a pin-bundle assembly: no room for the (single) rodded region
+        if t.get('use_low_fidelity_model'):
+            return None
+        L = c['core']['length']
+        zc = round(rng.uniform(0.3, 0.7) * L, 4)
+        t['AxialRegion'] = [dict(name='lower', z_lo=0.0, z_hi=zc, vf_coolant=0.3, model='simple'),
+                            dict(name='upper', z_lo=zc, z_hi=L, vf_coolant=0.3, model='simple')]
     elif fault == "axial-region-inverted":
         L = c['core']['length']
         t['AxialRegion'] = [dict(name='lower', z_lo=0.3 * L, z_hi=0.1 * L, vf_coolant=0.3, model='simple')]
